@@ -1,6 +1,7 @@
 """C20  Derived unit, category and type strings render every factor unambiguously."""
 import ast
 
+from ..cfg import CFG
 from ..report import AnalysisError, norm
 from ..srcmodel import own_nodes, own_statements
 from ..strbuild import DEN, NEG, NUM, POS, Builder
@@ -45,6 +46,7 @@ def run(rep, ctx):
     rep.run_rule("C20.R2", "the builders emit exactly the grammar's separators and literals; both regions render exponents, unsigned in the denominator", r2_alphabet, ctx)
     rep.run_rule("C20.R3", "a simple quantity stores its category argument, that category's quantity type and the validated unit", r3_simple, ctx)
     rep.run_rule("C20.R4", "repr/str/formatted suffix of value objects show GetUnit() or the requested unit", r4_repr, ctx)
+    rep.run_rule("C20.R6", "a composing request is degraded to a simple quantity only when its single factor has exponent 1", r6_simple_shortcut, ctx)
     rep.run_rule("C20.R5", "derived strings are built from every entry of the composing map (no shortcut, no memo keyed by less)", r5_sources, ctx)
     rep.not_decided += [
         "that parsing recovers the exponents when an atomic symbol itself ends in a digit",
@@ -344,9 +346,25 @@ def r5_sources(rep, ctx):
     jacc = _sums_exponents(m, je, jres, [MAPF], lambda mp, k: True, "the accumulation of the joined exponents")
     loops_over_map = [lp for lp in own_statements(je.node) if isinstance(lp, ast.For) and any(x == MAPF for x in walk(jres.term(lp.iter)))]
     if jacc is None and not accs and not loops_over_map:
+        # a mapping built directly from the (unit, exponent) pairs keeps only the last exponent of a repeated unit
+        for st in own_statements(je.node):
+            v = getattr(st, "value", None)
+            if v is None:
+                continue
+            for x in walk(jres.term(v)):
+                if x[0] == "call" and x[1] in (("name", "dict"), ("name", "OrderedDict")) and x[2] and x[2][0][0] == "gen":
+                    elt = x[2][0][1]
+                    if elt[0] == "tuple" and len(elt[1]) == 2 and _entry_path(elt[1][0]) == (MAPF, (1, 0)) and _entry_path(elt[1][1]) == (MAPF, (1, 1)):
+                        rep.bad("C20.R5", "joined-exponents:accumulate-by-unit", "the joined exponents are a mapping built directly from the (unit, exponent) pairs: for a unit that occurs under several categories the last exponent wins instead of the sum", node=st, fn=je)
+                        return _unit_builder_rule(rep, m)
+    if jacc is None and not accs and not loops_over_map:
         raise AnalysisError("Quantity.GetComposingUnitsJoiningExponents: the accumulation loop over the composing map was not found (another joining algorithm: the checker cannot tell whether non-adjacent repeats of a unit are joined)")
     acc_ok = jacc is not None and _entry_path(jacc["key"]) == (MAPF, (1, 0))
     rep.check(acc_ok, "C20.R5", "joined-exponents:accumulate-by-unit", "exponents are accumulated in a mapping keyed by the unit over all entries", "the joined exponents are not accumulated per unit", fn=je)
+    _unit_builder_rule(rep, m)
+
+
+def _unit_builder_rule(rep, m):
     # the unit builder iterates the joined composing units of this quantity
     ub = m.method("Quantity", "_CreateUnitsWithJoinedExponentsString")
     loops = [lp for lp in own_statements(ub.node) if isinstance(lp, ast.For)]
@@ -354,3 +372,66 @@ def r5_sources(rep, ctx):
     ok = bool(loops) and all(any(a == ("call", ("field", "GetComposingUnitsJoiningExponents"), (), ()) for a in alternatives(ures.term(lp.iter))) for lp in loops)
     rep.check(ok, "C20.R5", "unit-builder:iterates-joined-units", "the unit builder iterates GetComposingUnitsJoiningExponents() in every loop",
               "a loop of the unit builder does not iterate the joined composing units", fn=ub)
+
+
+# ------------------------------------------------------------------------------------------------
+def _first_entry(t):
+    """t denotes the first [unit, exp] entry of a composing request: `X[0]` (list form),
+    `next(iter(X.values()))` or `next(iter(X.items()))[1]` (mapping form) -> X, else None."""
+    if t[0] == "sub" and t[2] == ("const", 0):
+        return t[1]
+    if t[0] == "sub" and t[2] == ("const", 1):
+        inner = t[1]
+        if inner[0] == "call" and inner[1] == ("name", "next") and inner[2] and inner[2][0][0] == "call" and inner[2][0][1] == ("name", "iter") and inner[2][0][2]:
+            v = inner[2][0][2][0]
+            if v[0] == "call" and v[1][0] == "attr" and v[1][2] == "items":
+                return v[1][1]
+    if t[0] == "call" and t[1] == ("name", "next") and t[2] and t[2][0][0] == "call" and t[2][0][1] == ("name", "iter") and t[2][0][2]:
+        v = t[2][0][2][0]
+        if v[0] == "call" and v[1][0] == "attr" and v[1][2] == "values":
+            return v[1][1]
+    return None
+
+
+def r6_simple_shortcut(rep, ctx):
+    """ObtainQuantity may turn a one-factor composing request into a simple quantity by rebinding `unit` to
+    the factor's symbol; the exponent is dropped by that step, so every such rebinding needs the dominating fact
+    `<that factor's exponent> == 1`."""
+    from ..facts import facts as nfacts
+
+    m = ctx.model
+    fn = m.func("ObtainQuantity")
+    cfg = CFG(fn.node)
+    res = Resolver(m, fn)
+    n = 0
+    for st in own_statements(fn.node):
+        if not isinstance(st, ast.Assign):
+            continue
+        names = [x.id for t_ in st.targets for x in ast.walk(t_) if isinstance(x, ast.Name) and isinstance(x.ctx, ast.Store)]
+        if "unit" not in names:
+            continue
+        # the value that `unit` receives from this statement
+        nid = cfg.node_of(st)
+        idx = [i for i, d in enumerate(res.defs.get("unit", [])) if res.def_stmt.get(("unit", i)) is st]
+        for i in idx:
+            t = res._name_def("unit", i)
+            for a_ in alternatives(t):
+                # symbol component ([..][0]) of the first entry of a composing request
+                if not (a_[0] == "sub" and a_[2] == ("const", 0)):
+                    continue
+                src = _first_entry(a_[1])
+                if src is None:
+                    continue
+                n += 1
+                ok = False
+                for k, l_, r_, pos in nfacts(cfg, nid):
+                    if k == "eq" and pos and r_ is not None:
+                        for x_, y_ in ((l_, r_), (r_, l_)):
+                            if isinstance(y_, ast.Constant) and y_.value == 1:
+                                tx = res.term(x_)
+                                if tx[0] == "sub" and tx[2] == ("const", 1) and _first_entry(tx[1]) == src:
+                                    ok = True
+                rep.check(ok, "C20.R6", "ObtainQuantity:simple-shortcut:%s" % norm(ast.unparse(st))[:60], "the single factor is taken as a simple unit only under the fact that its exponent is 1",
+                          "`%s` turns a one-factor composing request into a simple quantity without the factor's exponent being known to be 1: ObtainQuantity([['m', 2]], ['length']) becomes plain 'm' and every string of the quantity loses the exponent" % norm(ast.unparse(st))[:80],
+                          node=st, fn=fn)
+    rep.floor("C20.R6", "shortcuts from a composing request to a simple quantity", n, 1)
